@@ -640,7 +640,8 @@ UNIT = Unit(
            requires=[("wf", "old(self).wf()"), ("target-wf", "old(self).draw_target.wf()"), ("clock", "time_ok(now)"), ("own-target", "!(old(self).draw_target.kind is Multi)"),
                      ("callback", "f.requires(())"),
                      ("sizes", "old(self).zombie_lines_count.0 <= 0x0FFF_FFFF && llc_of(old(self).draw_target) <= 0x0FFF_FFFF && forall|w: nat| 1 <= w <= 65535 ==> #[trigger] ms_small(*old(self), None, w)")],
-           ensures=[("C18-no-panic-on-io-error", "f.ensures((), r)", ["C18"])]),
+           ensures=[("C18-no-panic-on-io-error", "f.ensures((), r)", ["C18"]),
+                    ("C06-silent-when-hidden", "final(self).draw_target.hidden() == old(self).draw_target.hidden() && (old(self).draw_target.hidden() ==> final(self).draw_target.ops() == old(self).draw_target.ops())")]),
     ],
 )
 
